@@ -1,6 +1,7 @@
 package main
 
 import (
+	"reflect"
 	"fmt"
 	"go/constant"
 	"go/types"
@@ -545,6 +546,50 @@ func (c *FnCtx) trCall(e *Expr, env *Env) (Term, types.Type) {
 	case "asReal":
 		a, _ := arg(0)
 		return c.unbox(a, tReal), tReal
+	case "jsonAlways":
+		// jsonAlways("Struct", "Field", "key"): encoding/json always emits this field under this key -
+		// decided from the struct tag in the current tree (no omitempty/omitzero, not "-", exported)
+		if len(e.Args) != 3 || e.Args[0].Op != "str" || e.Args[1].Op != "str" || e.Args[2].Op != "str" {
+			c.specFail("jsonAlways(\"Struct\", \"Field\", \"key\")")
+		}
+		ty, err := c.g.parseSpecType(e.Args[0].Name)
+		if err != nil {
+			c.specFail("%v", err)
+		}
+		st, ok := ty.Underlying().(*types.Struct)
+		if !ok {
+			c.specFail("jsonAlways: %s is not a struct", e.Args[0].Name)
+		}
+		res := "false"
+		for i := 0; i < st.NumFields(); i++ {
+			f := st.Field(i)
+			if f.Name() != e.Args[1].Name || !f.Exported() {
+				continue
+			}
+			tag := reflect.StructTag(st.Tag(i)).Get("json")
+			parts := strings.Split(tag, ",")
+			name := parts[0]
+			if name == "" {
+				name = f.Name()
+			}
+			always := tag != "-"
+			for _, o := range parts[1:] {
+				if o == "omitempty" || o == "omitzero" {
+					always = false
+				}
+			}
+			if always && name == e.Args[2].Name {
+				res = "true"
+			}
+		}
+		return res, tBool
+	case "splice":
+		// splice(a, n, b, m): a with b[0..m) written at positions n..n+m (integer-valued ghost maps)
+		a, at := arg(0)
+		n, _ := arg(1)
+		b, _ := arg(2)
+		m, _ := arg(3)
+		return app("splice", a, n, b, m), at
 	case "shift":
 		// shift(m, k)[i] == m[i + k] for integer-valued ghost maps
 		m, mt := arg(0)
